@@ -786,7 +786,9 @@ pub fn run(run: &Run) -> i32 {
             }
         }
         for m in m2(3, 4) {
-            for k in if run.thorough() { vec![1, 2, 3] } else { vec![1, 3] } {
+            // quick: one scrambled order with the integer alphabet (a second order comes with the
+            // half-step alphabet below)
+            for k in if run.thorough() { vec![1, 2, 3] } else { vec![3] } {
                 work.push((Case { m: m.clone(), mname: format!("3x4:{}", m.alist_like()), order: scrambled(&m, k) }, if run.thorough() { a7.clone() } else { a3.clone() }));
             }
         }
@@ -844,7 +846,10 @@ pub fn run(run: &Run) -> i32 {
             ("wide2x64", Small { r: 2, n: 64, rows: vec![u64::MAX, ((1u64 << 33) - 1) << 10] }),
             ("tall33x2", Small { r: 33, n: 2, rows: vec![3u64; 33] }),
         ] {
-            for k in if run.thorough() { vec![0, 1, 2, 3] } else { vec![1, 2] } {
+            if name == "wide2x64" && !run.thorough() {
+                continue;
+            }
+            for k in if run.thorough() { vec![0, 1, 2, 3] } else if m.n > 30 { vec![2] } else { vec![1, 2] } {
                 work.push((Case { m: m.clone(), mname: name.to_string(), order: scrambled(&m, k) }, if run.thorough() { a5.clone() } else { a3.clone() }));
             }
         }
